@@ -16,6 +16,8 @@ import EasyNet.Drv.StreamServer
 import EasyNet.Drv.ClosePaths
 import EasyNet.Drv.Race
 import EasyNet.Drv.DgramSrv
+import EasyNet.Drv.Timeout
+import EasyNet.Drv.Send
 open EasyNet.Drv
 
 /-- one runner per model family; each returns `none` for model names it does not know -/
@@ -28,6 +30,8 @@ def runners : List (String → List String → List String → Option (List Stri
   , runClosePaths
   , runRace
   , runDgramSrv
+  , runTimeout
+  , runSend
   ]
 
 def dispatch (model : String) (cfg : List String) (ops : List String) : Option (List String) :=
